@@ -5,6 +5,11 @@ V = os.path.dirname(os.path.dirname(os.path.abspath(__file__)))
 props = [json.loads(l) for l in open(os.path.join(V, "properties.jsonl"))]
 TB = "Trusted: rustc's MIR construction and type checking (nightly 1.97, mir-opt-level=0), the checker's own abstract interpreter / rule code (validated against seeded mutants and benign edits), std collection semantics."
 CLAIMS = {
+ "C09": dict(
+   technique="step-function extraction by abstract interpretation of the per-method closure, then exhaustive exploration of the finite abstract machine in product with a monitor",
+   text="Static model checking of an extracted model: the fold step of check_methods is extracted from MIR as a function of six boolean abstractions (name seen, code present, code seen, first-with / first-without markers set, id map empty); every transition from every reachable abstract state is compared with a monitor transcribed from the statement (which Error with which range / back-reference, which bookkeeping updates, and nothing else). The invariant relating the id map to the marker is found by the exploration. walk_methods is shown to yield methods only.",
+   note=TB + " The abstraction of HashMap lookups as oracle bits relies on std map semantics. u32 parsing of codes is std.",
+   design="DESIGN.md section 4, C09"),
  "C15": dict(
    technique="visit-sequence extraction by abstract interpretation of the walkers' MIR (one generic element per container, recursion as induction hypothesis) compared with a traversal spec; path-existence rule for ControlFlow propagation",
    text="Static: for each of the 3 filter levels x 5 item/member configurations the sequence of callback invocations of walk_symbols_with_control_flow is extracted from MIR and compared with the pre-order the statement prescribes (array element first); nested types are covered by proving the inductive step of the recursive type visit; for every callback invocation a path must exist on which its Break ends the walk (dropped results are reported); walk_symbols / filter_symbols / find_symbol are interpreted end to end with an opaque predicate (all predicate valuations enumerated); walk_types / walk_methods / walk_args sequences likewise.",
